@@ -57,6 +57,19 @@ def gen_examples(rng, nmax=8):
         if rng.random() < 0.5:
             rng.shuffle(out)
         return out
+    if rng.random() < 0.12:
+        # families for variable-length fragments: one alphanumeric run that extends another character by character
+        # (longer first or shorter first), optional trailing digit runs whose length varies by more than
+        # MAX_VRLE_RANGE, digits mixed with digit-like characters, and whitespace-only strings (for strip)
+        fam = rng.choice([['https', 'http'], ['http', 'https', 'httpsx'], ['id7x', 'id7'], ['ab12', 'ab1', 'ab'],
+                          ['ab', 'cd1234', 'ef12', 'gh123456'], ['x', 'y12345', 'z1'], ['q7777777', 'r', 's77'],
+                          ['1\u00b23', '4\u00b3', '\u00b25'], ['12\u00b2', '\u00b23', '4\u00b25\u00b3'],
+                          ['abc', 'de', '   ', 'fgh'], ['\t', 'xy', ' \u00a0 '], ['  ', 'a1']])
+        fam = list(fam)
+        if rng.random() < 0.5:
+            fam.reverse()
+        base = fam + base[:rng.choice([0, 1, 2])]
+        return [s for s in base for _ in range(rng.choice([1, 1, 2]))]
     if rng.random() < 0.4:
         # a family: shared structure so that alignment / merging has something to do
         fam = rng.choice([['abc.com', 'def.com', '.com'], ['$5', '$7', 'US$5', 'CA$9'], ['ab-1', 'cd-2', '-x'],
@@ -103,7 +116,7 @@ def gen_opts(rng):
         o['remove_empties'] = True
     if rng.random() < 0.25:
         o['extra_letters'] = rng.choice(['_', '.', '-', '_-', '_.-', '.-'])
-    if rng.random() < 0.25:
+    if rng.random() < 0.35:
         o['variableLengthFrags'] = True
     o['dialect'] = rng.choice(['portable', 'perl', 'grep', 'portable'])
     return o
